@@ -218,3 +218,14 @@ func MustParse(b []byte) *refjson.Value {
 
 // B64 is unpadded standard base64.
 func B64(b []byte) string { return base64.RawStdEncoding.EncodeToString(b) }
+
+// DecodeB64 decodes unpadded standard base64.
+func DecodeB64(s string) ([]byte, error) { return base64.RawStdEncoding.DecodeString(s) }
+
+// CanonOf returns the canonical encoding of a parsed value (interface form for callers that hold *refjson.Value).
+func CanonOf(v interface{}) []byte {
+	if x, ok := v.(*refjson.Value); ok && x != nil {
+		return refjson.Canonical(x)
+	}
+	return nil
+}
